@@ -132,9 +132,10 @@ def m_str_misc(ex, f, a):
         if ty in INT_RANGES and ty not in ('char', 'bool'):
             if re.fullmatch(r'[+-]?\d+', t) and not (t.startswith('-') and ty.startswith('u') and False):
                 v = int(t); lo, hi = INT_RANGES[ty]
-                if t.startswith('-') and ty.startswith('u'): return err(Opaque('ParseIntError'))
+                if t.startswith('-') and ty.startswith('u'): return err(Opaque('ParseIntError', kind='InvalidDigit'))
                 if lo <= v <= hi: return ok(v)
-            return err(Opaque('ParseIntError'))
+                return err(Opaque('ParseIntError', kind='PosOverflow' if v > hi else 'NegOverflow'))
+            return err(Opaque('ParseIntError', kind='Empty' if t == '' else 'InvalidDigit'))
         if ty in ('f64', 'f32'):
             try: float(t); return ok(Opaque('float', text=t))
             except ValueError: return err(Opaque('ParseFloatError'))
